@@ -2,6 +2,7 @@ package harness
 
 import (
 	"fmt"
+	"regexp"
 	"strings"
 
 	"verif/pgwire"
@@ -42,7 +43,7 @@ func checkConcurrent(prop string, x *Exec, c *Case, nsched int) ([]Violation, bo
 		t := ParseOut(cs)
 		viol = append(viol, GrammarViolation(prop, i, t)...)
 		soloT[i] = Canonical(t.Msgs)
-		soloE[i] = CallbackTrace(cs)
+		soloE[i] = normRemote(CallbackTrace(cs))
 		if t.Grammar == nil {
 			if mr := MatchConn(s, cs, t); !mr.OK {
 				viol = append(viol, Violation{Prop: prop, Rule: mr.Rule, Sig: mr.Sig, Detail: fmt.Sprintf("conn %d served alone: %s", i, mr.Detail)})
@@ -70,7 +71,7 @@ func checkConcurrent(prop string, x *Exec, c *Case, nsched int) ([]Violation, bo
 			t := ParseOut(cs)
 			gv := GrammarViolation(prop, i, t)
 			ct := Canonical(t.Msgs)
-			ce := CallbackTrace(cs)
+			ce := normRemote(CallbackTrace(cs))
 			if len(gv) > 0 || ct != soloT[i] || ce != soloE[i] {
 				*c = *v
 				what := "transcript"
@@ -87,6 +88,12 @@ func checkConcurrent(prop string, x *Exec, c *Case, nsched int) ([]Violation, bo
 	}
 	return viol, n > 1
 }
+
+var remoteRe = regexp.MustCompile(`remote=sim:\d+`)
+
+// normRemote hides the simulated connection id (the solo run of connection i
+// is connection 0 of its own server).
+func normRemote(s string) string { return remoteRe.ReplaceAllString(s, "remote=sim:*") }
 
 func kindsOfCanonical(s string) string {
 	var sb strings.Builder
@@ -115,7 +122,22 @@ func init() {
 		},
 		Assumptions: append(append([]string{}, commonAssumptions...), "execution is serialised by the scheduler, so torn accesses cannot occur in a run; unsynchronised sharing is decided by the happens-before oracle instead"),
 		Gen: func(r *Rand, tier string) *Case {
-			return genConcurrent(r, r.Range(2, 5), histOpts{simple: true, extended: true, copy: r.Chance(1, 3), errs: true, params: true, binary: true, rich: true, typedNull: true, closes: true, unknownNames: true, multi: true, maxUnits: 4}, r.PickInt(1000, 4096, 65536))
+			c := genConcurrent(r, r.Range(2, 5), histOpts{simple: true, extended: true, copy: r.Chance(1, 3), errs: true, params: true, binary: true, rich: true, typedNull: true, closes: true, unknownNames: true, multi: true, maxUnits: 4}, r.PickInt(1000, 4096, 65536))
+			// half of the sets run on a server with user-supplied global parameters,
+			// middlewares and callbacks that read their context back (client and
+			// server parameters, user, remote address): per-connection values that
+			// leak between connections show up in the callback trace
+			if r.Bool() {
+				genGlobalParams(r, c)
+				if c.Server.Params == nil {
+					c.Server.Params = map[string]string{"x_app": "sim"}
+				}
+				for n := r.Intn(3); n > 0; n-- {
+					c.Server.MW = append(c.Server.MW, MWSpec{})
+				}
+				c.Variant = "inspect"
+			}
+			return c
 		},
 		Check: func(x *Exec, c *Case) ([]Violation, bool) {
 			n := 4
